@@ -933,12 +933,22 @@ class Model(Object):
                     self.add_metabolites([member])
                 if isinstance(member, Reaction) and member not in self.reactions:
                     self.add_reactions([member])
-                # TODO(midnighter): `add_genes` method does not exist.
-                # if isinstance(member, Gene):
-                #     if member not in self.genes:
-                #         self.add_genes([member])
+                # A gene that is only known to the group is registered as well, so
+                # that every member can be found in the model.
+                if isinstance(member, Gene) and member not in self.genes:
+                    member._model = self
+                    self.genes += [member]
 
             self.groups += [group]
+            # Groups can be members of other groups: a nested group belongs to
+            # the model as well.
+            nested = [
+                member
+                for member in group.members
+                if isinstance(member, Group) and member.id not in self.groups
+            ]
+            if nested:
+                self.add_groups(nested)
 
     def remove_groups(self, group_list: Union[str, Group, List[Group]]) -> None:
         """Remove groups from the model.
